@@ -417,7 +417,13 @@ class Den:
         return map(UN[o], self.S(a))
 
     def d_binop(self, o, a, b, style=None):
-        return map(BIN[o], self.S(a), self.S(b))
+        def f(x, y):
+            # an int beyond 2**53 meeting a float is rounded by the real arithmetic
+            flat = flatten([x, y], 8)
+            if any(type(v) is Fraction for v in flat) and any(type(v) is int and abs(v) >= 2 ** 53 for v in flat):
+                self.ctx.inexact = True
+            return BIN[o](x, y)
+        return map(f, self.S(a), self.S(b))
 
     def d_narop(self, o, a, lo, hi):
         return map(NAR[o], self.S(a), self.S(lo), self.S(hi))
